@@ -83,6 +83,8 @@ func main() {
 		rep = hx.RunC20(d)
 	case "c18":
 		rep = hx.RunC18(d)
+	case "c08":
+		rep = hx.RunC08(d)
 	default:
 		fmt.Fprintln(os.Stderr, "unknown component", os.Args[1])
 		os.Exit(2)
